@@ -321,7 +321,7 @@ def execute_stack(case, out):
         world.pump()
         world.advance(1000)
         wire = {}
-        for xfer in world.transfers() + world.udp_bundles():
+        for xfer in world.transfers() + world.udp_bundles() + world.btpu_bundles():
             if xfer['complete'] and xfer['dst'] is not None:
                 wire.setdefault(xfer['dst'], []).append(xfer['data'])
         for index, host in world.hosts.items():
@@ -342,9 +342,10 @@ def execute_stack(case, out):
                 if left:
                     out.fail('receive-queue-not-drained', 'contact %s of n%d still lists %s after the adaptor handled every signal'
                              % (hdl.object_path, index, left))
-            left = list(host.udpcl.recv_bundle_get_queue())
-            if left:
-                out.fail('receive-queue-not-drained', 'UDPCL agent of n%d still lists %s after the adaptor handled every signal' % (index, left))
+            for name, agent in (('UDPCL', host.udpcl), ('BTP-U', host.btpu)):
+                left = list(agent.recv_bundle_get_queue())
+                if left:
+                    out.fail('receive-queue-not-drained', '%s agent of n%d still lists %s after the adaptor handled every signal' % (name, index, left))
         for ev in dbus.RECORDER.events:
             if ev.get('error') and ev['kind'] in ('signal', 'return'):
                 out.fail('does-not-marshal:%s' % ev['member'], '%s %s%r does not fit %r: %s'
